@@ -9,6 +9,13 @@ sys.path.insert(0, os.path.dirname(os.path.abspath(__file__)))
 import vcheck  # noqa: E402
 
 MODULES = {
+    "C01": "p_wire",
+    "C03": "p_wire",
+    "C04": "p_rules",
+    "C06": "p_wire",
+    "C08": "p_wire",
+    "C12": "p_rules",
+    "C17": "p_entity",
     "C07": "p_lang",
     "C09": "p_bcl",
     "C10": "p_c10",
